@@ -268,40 +268,51 @@ const char *vf_hex(const void *p, size_t n) {
 }
 
 /* ---- violations ---------------------------------------------------------- */
-static void json_str(FILE *f, const char *s, size_t n) {
-    fputc('"', f);
+/* replay records are written with open()/write() from a static buffer only (no stdio, no malloc):
+ * the writer also runs inside fatal-signal handlers, possibly with the heap lock held */
+static char wbuf[1 << 16]; static size_t wlen; static int wfd = -1;
+static void w_flush(void) { size_t o = 0; while (o < wlen) { ssize_t w = write(wfd, wbuf + o, wlen - o); if (w <= 0) { if (errno == EINTR) continue; break; } o += (size_t)w; } wlen = 0; }
+static void w_raw(const char *s, size_t n) { for (size_t i = 0; i < n; i++) { if (wlen == sizeof wbuf) w_flush(); wbuf[wlen++] = s[i]; } }
+static void w_str(const char *s) { w_raw(s, strlen(s)); }
+static void w_num(long long v) { char b[32]; int n = 0; bool neg = v < 0; unsigned long long u = neg ? (unsigned long long)(-(v + 1)) + 1 : (unsigned long long)v;
+    do { b[n++] = (char)('0' + u % 10); u /= 10; } while (u); if (neg) b[n++] = '-'; while (n) { char c = b[--n]; w_raw(&c, 1); } }
+static void w_json(const char *s, size_t n) {
+    static const char hx[] = "0123456789abcdef";
+    w_raw("\"", 1);
     for (size_t i = 0; i < n; i++) {
         unsigned char c = (unsigned char)s[i];
-        if (c == '"' || c == '\\') { fputc('\\', f); fputc(c, f); }
-        else if (c == '\n') fputs("\\n", f);
-        else if (c < 0x20 || c >= 0x7f) fprintf(f, "\\u%04x", c);
-        else fputc(c, f);
+        if (c == '"' || c == '\\') { char e[2] = {'\\', (char)c}; w_raw(e, 2); }
+        else if (c == '\n') w_raw("\\n", 2);
+        else if (c < 0x20 || c >= 0x7f) { char e[6] = {'\\', 'u', '0', '0', hx[c >> 4], hx[c & 15]}; w_raw(e, 6); }
+        else w_raw((const char *)&c, 1);
     }
-    fputc('"', f);
+    w_raw("\"", 1);
 }
 static void write_replay(const char *prop, const char *key, const char *msg, char *path, size_t pathsz) {
     snprintf(path, pathsz, "%s/%s-%s-s%llu-c%ld-%d.json", VF.replay_dir, prop, VF.harness,
              (unsigned long long)VF.seed, vf_cur_case, replay_seq++);
-    FILE *f = fopen(path, "w");
-    if (!f) { snprintf(path, pathsz, "-"); return; }
-    fprintf(f, "{\"harness\":"); json_str(f, VF.harness, strlen(VF.harness));
-    fprintf(f, ",\n \"prop\":"); json_str(f, prop, strlen(prop));
-    fprintf(f, ",\n \"key\":"); json_str(f, key, strlen(key));
-    fprintf(f, ",\n \"msg\":"); json_str(f, msg, strlen(msg));
-    fprintf(f, ",\n \"seed\":%llu,\n \"case\":%ld,\n \"op\":%ld", (unsigned long long)VF.seed, vf_cur_case, vf_cur_op);
-    fprintf(f, ",\n \"case_desc\":"); json_str(f, case_desc, strlen(case_desc));
-    fprintf(f, ",\n \"argv\":[");
-    for (int i = 1; i < VF.argc; i++) { if (i > 1) fputc(',', f); json_str(f, VF.argv[i], strlen(VF.argv[i])); }
-    fprintf(f, "],\n \"oplog\":[");
+    wfd = open(path, O_WRONLY | O_CREAT | O_TRUNC, 0644);
+    if (wfd < 0) { snprintf(path, pathsz, "-"); return; }
+    wlen = 0;
+    w_str("{\"harness\":"); w_json(VF.harness, strlen(VF.harness));
+    w_str(",\n \"prop\":"); w_json(prop, strlen(prop));
+    w_str(",\n \"key\":"); w_json(key, strlen(key));
+    w_str(",\n \"msg\":"); w_json(msg, strlen(msg));
+    w_str(",\n \"seed\":"); w_num((long long)VF.seed); w_str(",\n \"case\":"); w_num(vf_cur_case); w_str(",\n \"op\":"); w_num(vf_cur_op);
+    w_str(",\n \"case_desc\":"); w_json(case_desc, strlen(case_desc));
+    w_str(",\n \"argv\":[");
+    for (int i = 1; i < VF.argc; i++) { if (i > 1) w_str(","); w_json(VF.argv[i], strlen(VF.argv[i])); }
+    w_str("],\n \"oplog\":[");
     const char *p = oplog; bool first = true;
     while (p && *p) {
         const char *e = strchr(p, '\n'); size_t n = e ? (size_t)(e - p) : strlen(p);
-        if (!first) fputs(",\n  ", f); first = false;
-        json_str(f, p, n);
+        if (!first) w_str(",\n  "); first = false;
+        w_json(p, n);
         p = e ? e + 1 : NULL;
     }
-    fprintf(f, "]}\n");
-    fclose(f);
+    w_str("]}\n");
+    w_flush();
+    close(wfd); wfd = -1;
 }
 bool vf_case_failed(void) { return case_viols > 0; }
 
@@ -359,6 +370,28 @@ static void vtalrm_handler(int sig) {
     res_printf("HANG\t%ld\n", vf_cur_case);
     _exit(41);
 }
+/* give up on the current case (state can not be cleaned up): the driver restarts the shard after it */
+void vf_abort_case(void) {
+    dump_counters();
+    res_printf("CRASH\t%ld\n", vf_cur_case);
+    _exit(42);
+}
+/* generous wall-clock watchdog for multi-threaded cases (a deadlock burns no CPU): its firing is
+ * reported as a stall (inconclusive), never as a violation */
+static void alrm_handler(int sig) {
+    (void)sig;
+    char path[700];
+    write_replay(VF.prop, "stall:wall-clock", "case made no progress within the wall-clock allowance", path, sizeof path);
+    res_printf("V\t%s\tstall:wall-clock\t%s\tcase=%ld op=%ld no progress within the wall-clock allowance\n", VF.prop, path, vf_cur_case, vf_cur_op);
+    dump_counters();
+    res_printf("HANG\t%ld\n", vf_cur_case);
+    _exit(41);
+}
+void vf_wall_arm(int seconds) {
+    struct sigaction sa; memset(&sa, 0, sizeof sa); sa.sa_handler = alrm_handler; sigaction(SIGALRM, &sa, NULL);
+    alarm((unsigned)seconds);
+}
+void vf_wall_disarm(void) { alarm(0); }
 void vf_cpu_arm_prop(const char *prop, const char *what, int millis) { vf_cpu_arm(what, millis); cpu_prop = prop; }
 void vf_cpu_arm(const char *what, int millis) {
     cpu_what = what; cpu_prop = NULL;
